@@ -240,7 +240,21 @@ func c11(g *Gen) {
 					}
 				}
 			}
-			g.Emit("C11.errors!", list(atom(strings.Join(eprob, "; "))), boolS(len(eprob) == 0), "bad-requests", "broken-dependency-requested-later")
+			// a package whose first file parses and whose second does not: every request reports the error
+			os.MkdirAll(filepath.Join(dir, "half"), 0755)
+			os.WriteFile(filepath.Join(dir, "half", "a.go"), []byte("package half\n\ntype A struct{ X int }\n"), 0644)
+			os.WriteFile(filepath.Join(dir, "half", "b.go"), []byte("package half\n\ntype B struct {\n"), 0644)
+			{
+				p := parser.New()
+				cfg := &packages.Config{Dir: dir, Env: append(os.Environ(), "GOFLAGS=-mod=mod", "GOWORK=off")}
+				if err := p.LoadPackagesWithConfigForTesting(cfg, "ex.test/half"); err == nil {
+					eprob = append(eprob, "requesting a package whose second file does not parse gave no error")
+				}
+				if err := p.LoadPackagesWithConfigForTesting(cfg, "ex.test/half"); err == nil {
+					eprob = append(eprob, "requesting it a second time gave no error")
+				}
+			}
+			g.Emit("C11.errors!", list(atom(strings.Join(eprob, "; "))), boolS(len(eprob) == 0), "bad-requests", "broken-dependency-requested-later", "half-parsable-package-requested-again")
 		}
 		os.Chdir(cwd)
 		os.RemoveAll(dir)
